@@ -78,32 +78,46 @@ MediaOwner(K, D, c) ==
 
 ImplBases(K, D, c) ==
   LET o == MediaOwner(K, D, c) IN
-  IF c = 0 THEN <<>>
-  ELSE IF o = 0 THEN K.cls[c].bases
-  ELSE CASE K.cls[o].ext = "true"  -> K.cls[c].bases
+  IF c = 0 THEN <<>>        \* (Generic, object: empty, nothing to merge)
+  ELSE IF o = 0 THEN BasesOf(K, c)        \* curr_cls.__bases__, i.e. (Component,) = <<0>> when none is listed:
+  ELSE CASE K.cls[o].ext = "true"  -> BasesOf(K, c)   \* merging the root adds nothing but does flatten
          [] K.cls[o].ext = "false" -> <<>>
          [] K.cls[o].ext = "list"  -> K.cls[o].extl
 
-\* the own list as the code reads it: converted only if the owner has been resolved
-ImplOwn(K, D, c, t, resolved) ==
-  LET o == MediaOwner(K, D, c) IN
+\* A list held by a memoised Media object is either a snapshot of names (o = 0) or - for css -
+\* the very dict object of the owner's nested Media (o = owner), which _resolve_media later
+\* rewrites IN PLACE: such a list shows the owner's current state whenever it is read.
+\* (Media.js is rebound to a new list by _resolve_media, so js lists are snapshots.)
+OwnNames(K, o, t, resolved) ==
   IF o = 0 THEN <<>>
   ELSE [i \in 1..Len(K.cls[o].lists[t]) |->
           IF o \in resolved THEN Res(K, K.cls[o].lists[t][i]) ELSE K.cls[o].lists[t][i]]
+Mat(K, resolved, ref, t) == IF ref.o = 0 THEN ref.names ELSE OwnNames(K, ref.o, t, resolved)
+Snap(names) == [o |-> 0, names |-> names]
+OwnRef(K, D, c, t, resolved) ==
+  LET o == MediaOwner(K, D, c) IN
+  IF t = "js" \/ o = 0 THEN Snap(OwnNames(K, o, t, resolved)) ELSE [o |-> o, names |-> <<>>]
 
 \* add the lists of a base: Media.__add__ skips empty and already present lists
-RECURSIVE AddLists(_, _)
-AddLists(acc, ls) ==
-  IF ls = <<>> THEN acc
-  ELSE AddLists(IF Head(ls) = <<>> \/ Head(ls) \in Range(acc) THEN acc ELSE Append(acc, Head(ls)), Tail(ls))
+RECURSIVE AddLists(_, _, _, _, _)
+AddLists(K, resolved, t, acc, refs) ==
+  IF refs = <<>> THEN acc
+  ELSE LET v == Mat(K, resolved, Head(refs), t) IN
+       AddLists(K, resolved, t,
+                IF v = <<>> \/ v \in {Mat(K, resolved, acc[i], t) : i \in 1..Len(acc)} THEN acc
+                ELSE Append(acc, Head(refs)),
+                Tail(refs))
 
-RECURSIVE MergeBases(_, _, _, _, _)
-MergeBases(D, memo_, bs, t, acc) ==
+MatAll(K, resolved, refs, t) == [i \in 1..Len(refs) |-> Mat(K, resolved, refs[i], t)]
+
+RECURSIVE MergeBases(_, _, _, _, _, _, _)
+MergeBases(K, D, memo_, resolved, bs, t, acc) ==
   IF bs = <<>> THEN acc
-  ELSE LET a2 == AddLists(acc, memo_[Head(bs)][t]) IN
-       MergeBases(D, memo_, Tail(bs), t, IF "flatten" \in D THEN <<DjMerge(a2)>> ELSE a2)
+  ELSE LET a2 == AddLists(K, resolved, t, acc, memo_[Head(bs)][t]) IN
+       MergeBases(K, D, memo_, resolved, Tail(bs), t,
+                  IF "flatten" \in D THEN <<Snap(DjMerge(MatAll(K, resolved, a2, t)))>> ELSE a2)
 
-\* st = [memo |-> class -> [t -> sequence of lists], resolved |-> set of classes]
+\* st = [memo |-> class -> [t -> sequence of list references], resolved |-> set of classes]
 RECURSIVE ImplFill(_, _, _, _)
 RECURSIVE ImplFillSeq(_, _, _, _)
 ImplFillSeq(K, D, st, s) == IF s = <<>> THEN st ELSE ImplFillSeq(K, D, ImplFill(K, D, st, Head(s)), Tail(s))
@@ -112,11 +126,12 @@ ImplFill(K, D, st, c) ==
   ELSE LET bs  == ImplBases(K, D, c)
            s1  == ImplFillSeq(K, D, st, bs)
            res == IF "lazy" \in D THEN s1.resolved ELSE s1.resolved \cup {c}
-           val == [t \in Types |-> MergeBases(D, s1.memo, bs, t, <<ImplOwn(K, D, c, t, res)>>)] IN
+           val == [t \in Types |-> MergeBases(K, D, s1.memo, res, bs, t, <<OwnRef(K, D, c, t, res)>>)] IN
        [memo |-> s1.memo @@ (c :> val), resolved |-> res]
 
 ImplInit == [memo |-> <<>>, resolved |-> {}]
-ImplMedia(st, c) == [t \in Types |-> DjMerge(st.memo[c][t])]          \* media._js / ._css[t]
+\* media._js / media._css[t] as read now
+ImplMedia(K, st, c) == [t \in Types |-> DjMerge(MatAll(K, st.resolved, st.memo[c][t], t))]
 
 (* ---- _get_comp_cls_attr: walks the MRO, resolving every class it visits ----- *)
 ImplAttrResolved(K, st, c, p) ==
